@@ -1419,6 +1419,10 @@ fn corpus(prop: &str) -> Vec<(&'static str, Vec<Op>, bool)> {
         v.push(("corpus:expand-K1", vec![CreateNode(OBSERVER, vec![], vec![], false), CreateNode(OBSERVER, vec![], vec![], false), Begin(0), CreateEdge(0, 0, 1, 0), Read(1, Expand(Sel::Any, Dir::Out, None))], false));
         v.push(("corpus:expand-K3", vec![CreateNode(OBSERVER, vec![], vec![], false), CreateNode(OBSERVER, vec![], vec![], false), CreateEdge(OBSERVER, 0, 1, 0), Begin(0), DeleteNode(0, Sel::Any, 1, true), Read(1, Expand(Sel::Any, Dir::Out, None))], false));
         v.push(("corpus:expand-K4", vec![CreateNode(OBSERVER, vec![0], vec![], false), Begin(0), Commit(0), CreateNode(1, vec![0], vec![], false), CreateEdge(1, 0, 1, 0), Read(1, Expand(Sel::Label(0), Dir::Out, Some(0)))], false));
+        // GrafeoDB::delete_node detaches the node first (109e5bf); at epoch 0 the edge goes, after a commit an edge
+        // stamped with epoch 1 stays (store-epoch path: K4)
+        v.push(("corpus:db-delete-detaches", vec![CreateNode(OBSERVER, vec![], vec![], false), CreateNode(OBSERVER, vec![], vec![], false), CreateEdge(OBSERVER, 0, 1, 0), DbDeleteNode(1), Read(OBSERVER, GetEdge(0)), Read(OBSERVER, Neigh(0, Dir::Out))], false));
+        v.push(("corpus:db-delete-epoch1", vec![CreateNode(OBSERVER, vec![], vec![], false), CreateNode(OBSERVER, vec![], vec![], false), Begin(0), Commit(0), CreateEdge(OBSERVER, 0, 1, 0), DbDeleteNode(1), Read(OBSERVER, GetEdge(0)), Read(OBSERVER, GetNode(1))], false));
         // outside every class: reader's snapshot precedes the writer's begin
         v.push(("corpus:clean-later-starter", vec![CreateNode(OBSERVER, vec![0], vec![], false), Begin(1), Begin(2), Commit(2), Begin(0), CreateNode(0, vec![0], vec![(0, Some(3))], true), Read(1, LabelScan(0)), Read(1, GetNode(1)), Read(1, AllScan), Commit(0), Read(1, LabelScan(0)), Commit(1), Read(1, LabelScan(0))], false));
         // error paths of the transaction state machine
